@@ -917,6 +917,8 @@ def run(chk):
             elif runtime:
                 chk.violation(r_fs, key, "%s converts the run-time value(s) %s through the hard-coded %s; only compile-time keyword defaults are known to be in that system" % (f["q"], runtime[:3], (o.get("fn") or "").split("::")[-1]), f["file"], n["l"])
 
+    from verif import rawget
+    rawget.run(chk, "C02", floor=6)
     from verif import fallthrough
     fallthrough.run(chk, "C02", floor=12)
     from verif import argorder
